@@ -59,6 +59,93 @@ Section Source.
     if thresh NN <? r then nmin (r * (ofN NN inner_ / (ofN NN rej + n1))) n1 else r.
   Proof. reflexivity. Qed.
 
+  (* the body of the inner loop (one proposal: draw an index, set_sampled, score, accept_score, on rejection reset_value
+     and count), translated as an update of the world and of (score_current, loop_rejections), is the model's mc_step *)
+  Lemma nth_error_set_nth_same {A} (l : list A) i x v : nth_error l i = Some x -> nth_error (set_nth l i v) i = Some v.
+  Proof.
+    revert i; induction l as [|y l IH]; intros [|i] H; cbn in *; try discriminate; [reflexivity|]. apply IH; exact H.
+  Qed.
+
+  Theorem mc_step_is_source : forall (score : N -> list T -> option T) c st d,
+    mc_step NN fexp score c st d =
+    match gen_mc_step NN fexp score c (mkWorld (params NN st) (handles NN st) (calls NN st))
+                      (score_cur NN st) (kt NN st) (ratio NN st) (loop_rej NN st) d with
+    | None =>        (* the expect() panic: the drawn index names no basis *)
+        mkOst (params NN st) (handles NN st) (score_cur NN st) (kt NN st) (ratio NN st)
+              (conv_count NN st) (loop_rej NN st) (score_start NN st) (loops_done NN st)
+              (j NN st) (calls NN st) true false true
+    | Some (w, sc, rej) =>
+        mkOst (w_params NN w) (w_handles NN w) sc (kt NN st) (ratio NN st) (conv_count NN st) rej
+              (score_start NN st) (loops_done NN st) (N.succ (j NN st)) (w_calls NN w) false false false
+    end.
+  Proof.
+    intros score c st d. unfold mc_step, gen_mc_step, w_set_sampled. cbv zeta. cbn [w_handles w_params w_calls].
+    destruct (nth_error (handles NN st) (d_idx NN d)) as [h|] eqn:Hh; [|reflexivity].
+    unfold w_score. cbn [fst snd w_handles w_params w_calls].
+    rewrite accept_score_is_source.
+    destruct (accept NN fexp (d_thr NN d) _ (score_cur NN st) (kt NN st)) eqn:Ha.
+    - destruct (score (calls NN st) _) as [s|] eqn:Hs; [reflexivity|]. cbn in Ha. discriminate.
+    - unfold w_reset. cbn [w_handles w_params w_calls].
+      rewrite (nth_error_set_nth_same _ _ _ _ Hh). cbn [h_cell h_old with_old]. rewrite N.add_1_r. reflexivity.
+  Qed.
+
+  (* what optimise_state starts with, the head of the outer loop's body, the length of the inner loop, the final
+     assertion *)
+  Theorem init_is_source : forall c ps hs s0,
+    init NN c ps hs s0 =
+    mkOst ps hs s0 (fst (gen_init NN c)) (snd (gen_init NN c)) gen_init_count 0%N s0 0%N 0%N 1%N
+          (N.eqb (gen_loops NN c) 0) false false.
+  Proof. reflexivity. Qed.
+
+  Theorem loop_head_is_source : forall c st,
+    (score_start NN (end_loop NN c st), loop_rej NN (end_loop NN c st)) = gen_loop_head NN (score_cur NN (end_loop NN c st))
+    /\ gen_loop_head NN (score_cur NN (init NN c (params NN st) (handles NN st) (score_cur NN st)))
+       = (score_start NN (init NN c (params NN st) (handles NN st) (score_cur NN st)),
+          loop_rej NN (init NN c (params NN st) (handles NN st) (score_cur NN st))).
+  Proof.
+    intros c st. split; [|reflexivity]. unfold end_loop, gen_loop_head.
+    destruct (andb _ _); reflexivity.
+  Qed.
+
+  Theorem inner_count_is_source : forall (score : N -> list T -> option T) c st d,
+    advance NN fexp score c st d =
+    if fin NN st then st
+    else let st1 := mc_step NN fexp score c st d in
+         if bad_index NN st1 then st1
+         else if N.eqb (j NN st1) (gen_inner_count NN c) then end_loop NN c st1 else st1.
+  Proof. reflexivity. Qed.
+
+  Theorem final_assert_is_source : forall (score : N -> list T -> option T) c ps hs draws s0,
+    score 0%N ps = Some s0 ->
+    let st := run NN fexp score c (init NN c ps hs s0) draws in
+    bad_index NN st = false -> fin NN st = true -> converged NN st = false ->
+    optimise NN fexp score c ps hs draws
+    = if gen_final_ok NN (score (calls NN st) (params NN st)) then Returned NN st else PanicFinalInvalid NN.
+  Proof.
+    intros score c ps hs draws s0 H0 st Hb Hf Hc. unfold optimise. rewrite H0. fold st. rewrite Hb, Hf, Hc. cbn [negb].
+    unfold gen_final_ok. destruct (score (calls NN st) (params NN st)); reflexivity.
+  Qed.
+
+  (* the whole tail of the outer loop's body (cooling, convergence count, early return, step-ratio update), translated as
+     a state update of (kt, convergence_count, step_ratio) with an early-return flag, is the model's end_loop *)
+  Theorem end_loop_is_source : forall c st,
+    let r := gen_end_loop NN c (score_cur NN st) (score_start NN st) (kt NN st) (conv_count NN st) (ratio NN st) (loop_rej NN st) in
+    end_loop NN c st =
+    mkOst (params NN st) (handles NN st) (score_cur NN st)
+          (fst (fst (snd r))) (snd (snd r)) (snd (fst (snd r))) 0%N (score_cur NN st)
+          (N.succ (loops_done NN st)) 0%N (calls NN st)
+          (orb (fst r) (N.leb (loops_of (steps NN c) (inner NN c)) (N.succ (loops_done NN st)))) (fst r) false.
+  Proof.
+    intros c st. unfold end_loop, gen_end_loop, thresh. cbv zeta.
+    destruct (conv NN c) as [eps|]; cbn [andb].
+    - destruct ((score_cur NN st - score_start NN st) <? eps); cbn [andb].
+      + rewrite N.add_1_r. destruct (N.ltb 5 (N.succ (conv_count NN st))); cbn [andb fst snd orb].
+        * reflexivity.
+        * destruct ((nofZ 1 / nofZ 10000) <? ratio NN st); reflexivity.
+      + destruct ((nofZ 1 / nofZ 10000) <? ratio NN st); reflexivity.
+    - destruct ((nofZ 1 / nofZ 10000) <? ratio NN st); reflexivity.
+  Qed.
+
   (* ---- src/basis.rs *)
   Theorem clamp_is_source : forall lo hi x, gen_clamp NN lo hi x = nclamp lo hi x.
   Proof. reflexivity. Qed.
@@ -109,6 +196,17 @@ Section Source.
 
   Theorem mol_radius_is_source : forall fmin_ l,
     mol_radius NN fmin_ l = fold_left (fun acc p => nmax acc (gen_mol_radius_term NN p)) l fmin_.
+  Proof. reflexivity. Qed.
+
+  (* ---- src/shape/line_shape.rs: from_radial's angular step and the edge it pushes for (index, (r1, r2)) *)
+  Theorem radial_edge_is_source : forall fsin fcos dtheta index r1 r2,
+    gen_radial_edge NN fsin fcos dtheta index r1 r2 = radial_edge NN fsin fcos dtheta index r1 r2.
+  Proof. reflexivity. Qed.
+
+  Theorem from_radial_is_source : forall fsin fcos pi_ points,
+    from_radial NN pi_ fsin fcos points
+    = map (fun ir => gen_radial_edge NN fsin fcos (gen_radial_dtheta NN pi_ points) (fst ir) (fst (snd ir)) (snd (snd ir)))
+          (combine (seq 0 (List.length points)) (combine points (rotate1 points))).
   Proof. reflexivity. Qed.
 
   (* ---- src/shape/molecular_shape2.rs *)
